@@ -7,6 +7,8 @@ use wac_parser::Document;
 mod fs;
 #[cfg(feature = "registry")]
 mod registry;
+#[cfg(all(wac_verif, feature = "registry"))]
+pub mod verif_hooks;
 mod visitor;
 
 pub use fs::*;
